@@ -77,3 +77,8 @@ impl Clone for P {
     fn clone(&self) -> (r: P) ensures r == *self { unimplemented!() }
 }
 
+// curve25519-dalek: `impl Default for Scalar` returns Scalar::ZERO
+impl Default for Scalar {
+    #[verifier::external_body]
+    fn default() -> (r: Scalar) ensures r == Scalar::ZERO { unimplemented!() }
+}
